@@ -237,7 +237,7 @@ func c11Program(p *c11Plan) string {
 		fmt.Fprintf(&b, "sink %s\n    kindmatch [%s],\n    priority %d\n{\n", s.Name, strings.Join(ks, ", "), s.Prio)
 		// arr: a local list built from a constant literal and then written in place
 		b.WriteString("    let id := event.state.id\n    let acc := id\n    let arr := [0, 0]\n    arr[0] := id\n")
-		b.WriteString("    let cnt := 0\n")
+		b.WriteString("    let cnt := 0\n    let lk := \"v{{id}}w\" like \"^v{{id}}w$\"\n")
 		if s.Loops > 0 {
 			fmt.Fprintf(&b, "    for i in range(1, %d) {\n        cnt := cnt + 1\n", s.Loops+1) // (not range(1, 1): DESIGN.md 9, observations)
 			if s.Shared {
@@ -262,7 +262,7 @@ func c11Program(p *c11Plan) string {
 		if s.Count {
 			b.WriteString("    bump()\n")
 		}
-		fmt.Fprintf(&b, "    probe(%q, id, acc, event.state.id, event.name, arr[0], cnt)\n", s.Name)
+		fmt.Fprintf(&b, "    probe(%q, id, acc, event.state.id, event.name, arr[0], cnt, lk)\n", s.Name)
 		fmt.Fprintf(&b, "    if event.state.fail%s {\n", s.Name)
 		if s.Mode == 1 {
 			// a plain error of the variable scope, raised by a statement of the sink body itself
@@ -277,7 +277,7 @@ func c11Program(p *c11Plan) string {
 		b.WriteString("    }\n}\n")
 	}
 	b.WriteString("sink sf\n    kindmatch [\"c11x.f\"],\n    priority 0\n{\n    raise(\"T-sf\", event.state.id, [event.state.id])\n}\n")
-	b.WriteString("sink sc\n    kindmatch [\"c11x.c\"],\n    priority 0\n{\n    let id := event.state.id\n    let acc := shared(id)\n    probe(\"sc\", id, acc, event.state.id, event.name, id, 0)\n    if event.state.failc {\n        raise(\"T-sc\", id, [id, acc])\n    }\n}\n")
+	b.WriteString("sink sc\n    kindmatch [\"c11x.c\"],\n    priority 0\n{\n    let id := event.state.id\n    let acc := shared(id)\n    probe(\"sc\", id, acc, event.state.id, event.name, id, 0, true)\n    if event.state.failc {\n        raise(\"T-sc\", id, [id, acc])\n    }\n}\n")
 	return b.String()
 }
 
@@ -294,7 +294,7 @@ func c11Run(p *c11Plan) {
 	vs := newGlobalScope()
 	probes := map[int][]c11Probe{}
 	vs.SetValue("probe", &goFunc{name: "probe", f: func(tid uint64, args []interface{}) (interface{}, error) {
-		if len(args) != 7 {
+		if len(args) != 8 {
 			simrt.Fail("oracle:probe", "probe-args", "probe called with %d args", len(args))
 		}
 		id, _ := num(args[1])
@@ -302,6 +302,9 @@ func c11Run(p *c11Plan) {
 		id2, _ := num(args[3])
 		arr0, _ := num(args[5])
 		cnt, _ := num(args[6])
+		if lk, _ := args[7].(bool); !lk {
+			simrt.Fail("oracle:isolation", "isolation/like", "sink %v invoked for event %v: a string built from its event id does not match (like) a pattern built from the same id", args[0], args[1])
+		}
 		probes[int(id)] = append(probes[int(id)], c11Probe{fmt.Sprint(args[0]), id, acc, id2, fmt.Sprint(args[4]), arr0, cnt})
 		return nil, nil
 	}})
